@@ -33,13 +33,13 @@ def run(prop, spec, run_):
         q = tier == "quick"
         if prop == "C08":
             want = {"dsk.write", "dsk.geom", "dsk.fill"}
-            counts = {"dsk.write": 30 if q else 400, "dsk.fill": 2 if q else 12, "dsk.sweep": 0 if q else 1}
+            counts = {"dsk.write": 20 if q else 400, "dsk.fill": 2 if q else 12, "dsk.sweep": 1 if q else 2}
         elif prop == "C07":
             want = {"dsk.rt", "dsk.frag", "dsk.corrupt"}
-            counts = {"dsk.rt": 30 if q else 300, "dsk.frag": 40 if q else 500, "dsk.corrupt": 120 if q else 2000, "dsk.sweep": 0 if q else 1}
+            counts = {"dsk.rt": 20 if q else 300, "dsk.frag": 40 if q else 500, "dsk.corrupt": 120 if q else 2000, "dsk.sweep": 1 if q else 2}
         else:
             want = {"dsk.fill", "dsk.write", "dsk.geom"}
-            counts = {"dsk.fill": 5 if q else 40, "dsk.write": 12 if q else 100}
+            counts = {"dsk.fill": 5 if q else 40, "dsk.write": 12 if q else 100, "dsk.sweep": 1 if q else 2}
         fam_dsk.run_streams(run_, want, counts, thorough=not q, corpus=corpus("dsk_histories"))
     elif prop in ASM_PROPS:
         import props_asm
